@@ -155,9 +155,11 @@ def run_impl(r, cases, timeout=120):
     return out
 
 
-def run_model(ctx, r, cases, fuel=20000, timeout=600):
+def run_model(ctx, r, cases, fuel=20000, timeout=600, mode="parse"):
+    """mode "parseobj": LR/ObjParse.v, one parser OBJECT (Go slices with backing arrays, stale look-ahead) per line, handed from
+    call to call (NEW = NewParser())."""
     text = "".join(c + "\n" for c in cases)
-    p = subprocess.run([ctx.modelrun, "parse", r.table_file, str(fuel)], input=text, capture_output=True, text=True, timeout=timeout)
+    p = subprocess.run([ctx.modelrun, mode, r.table_file, str(fuel)], input=text, capture_output=True, text=True, timeout=timeout)
     lines = p.stdout.split("\n")
     got = [l.strip() for l in lines[:len(cases)]]
     return got + ["MODEL-NO-OUTPUT"] * (len(cases) - len(got))
